@@ -1331,12 +1331,23 @@ func (p *c17) execPath(ctx core.Ctx, c c17Case) core.Obs {
 	var s *vuego.Stack
 	root := "v"
 	mode := c.Mode % len(c17ModeNames)
+	// the texts of the invalid steps are themselves variables of the stack, holding
+	// keys / indexes / field names that exist in the containers: a step is a
+	// literal key, never the name of a variable to look up
+	lures := func(m map[string]any) map[string]any {
+		for k, v := range map[string]any{"zz": "k", "x": 0, "name": 0, "y": "Name", "z": "Name", "plain": "Name", "hidden": "Name", "secret": "name", "sec": "Name", "k": "zz"} {
+			if _, taken := m[k]; !taken {
+				m[k] = v
+			}
+		}
+		return m
+	}
 	ok := !r.call("setup", func() {
 		switch mode {
 		case 0:
-			s = vuego.NewStack(map[string]any{"v": tb.val, "w": other.val})
+			s = vuego.NewStack(lures(map[string]any{"v": tb.val, "w": other.val}))
 		case 1, 5:
-			s = vuego.NewStack(map[string]any{"v": decoy.val})
+			s = vuego.NewStack(lures(map[string]any{"v": decoy.val}))
 			s.Push(nil)
 			s.Set("v", tb.val)
 			s.Push(map[string]any{"w": other.val})
@@ -1345,7 +1356,7 @@ func (p *c17) execPath(ctx core.Ctx, c c17Case) core.Obs {
 			}
 		case 2, 3:
 			data, _ := c17BuildRoot(tb, other, nil, nil, nil, nil)
-			s = vuego.NewStackWithData(map[string]any{"w": 1}, data)
+			s = vuego.NewStackWithData(lures(map[string]any{"w": 1}), data)
 			root = []string{"a", "A"}[mode-2]
 		case 4:
 			data, _ := c17BuildRoot(tb, other, nil, nil, nil, nil)
